@@ -233,6 +233,10 @@ func suiteHubReady(o *Out, r *Rng, n int, tier string) {
 		if r.Intn(3) == 0 {
 			rootNum = uint64(95 + r.Intn(10)) // start blocks rounded down to a multiple of 100 matter
 		}
+		if r.Intn(15) == 0 {
+			rootNum = []uint64{(uint64(1) << 63) - uint64(1+r.Intn(4)), ^uint64(0) - 400}[r.Intn(2)] // heights are uint64
+			o.Stat("hubready.heights_in_the_upper_half_of_uint64", 1)
+		}
 		to := TreeOpts{N: 6 + r.Intn(16), RootNum: rootNum, RootParent: fmt.Sprintf("%dz", rootNum-1),
 			SkipNums: r.Intn(3) == 0, ForkBias: []int{0, 1, 2, 3}[r.Intn(4)], LibPolicy: []int{0, 0, 1, 2}[r.Intn(4)]}
 		t := genTree(r, to)
